@@ -194,3 +194,19 @@ prop("C06",
      "dead-stored error in pkg/dsl; (M1) the map ranges of the evolution analyser are order-independent (deterministic verdicts).",
      "Reflexivity and the verdict for a particular pair of models (behavioural); totality beyond the panic/error obligations listed.",
      COMMON_ASSUME)
+
+prop("C08",
+     "Structural clauses of 'every accepted package yields well-formed code', decided on the generators, never by compiling their output: "
+     "(L1/L2) every runtime symbol a template mentions is defined in the shipped runtime; (P4) every `default: panic` of a switch in the back ends "
+     "is unreachable — the switch covers every implementer of the sealed model interface / every primitive / every operator or built-in function "
+     "constant, or the missing shapes are excluded by a named flow fact (FF1-FF3) — so a model shape that validation admits cannot abort generation; "
+     "(N1) the reserved-word table of each back end is a superset of its language's keywords (refs/keywords.json); (N2) each <X>IdentifierName helper "
+     "looks up the spelling it emits and escapes it when reserved; (N3) Namespace.GetAllChildReferences is a post-order, which the Python dtype "
+     "registration relies on at import time; (N4) every mention of an hdf5/ndjson artefact in the production generators is under the option that "
+     "enables the format, and helpers receive that option itself; (N5) names validation keeps apart stay apart after the back ends' case conversion.",
+     "That generated C++ compiles as C++17 and generated Python imports for every model (needs the compilers and quantifies over all models); "
+     "collisions between different name categories (a type and a union class, a field and a method of the runtime base class); the scaffold of "
+     "`yardl init`; the internal* options (mocks/translator assume both formats on); plain precondition panics of helper functions (only switch "
+     "defaults are decided).",
+     COMMON_ASSUME + ["refs/keywords.json lists the keywords of Python 3.8-3.12, ISO C++17 and MATLAB R2023b",
+                      "flow facts FF1-FF3 (what can reach a back-end switch) were confirmed by reading yaml.go, validation_type_resolution.go and evolution.go"])
